@@ -83,14 +83,17 @@ theorem forIn_yieldM {ι α β ρ : Type} (f : ι → α) (g : ι → R β) (is 
       | ok ys => simp [Except.map, pure, Except.pure]
 
 /-- the whole translated generator: the loop, then the hand-over `k` of the yielded list (`k` = the `match` on how the loop
-    ended that the translator emits; only its `fell` branch matters, a generator body has no `return v`) -/
-theorem generator_eq_mapM {ι α β ρ : Type} (f : ι → α) (g : ι → R β) (is : List ι)
+    ended that the translator emits; only its `fell` branch matters, a generator body has no `return v`); the index list is
+    given up to equality (`range(1 + n)` vs `range(n + 1)`) -/
+theorem generator_eq_mapM {ι α β ρ : Type} (f : ι → α) (g : ι → R β) (is is' : List ι)
     (body : α → List β → R (Ctl (List β) ρ)) (k : Done (List β) ρ → R (List β))
+    (his : is' = is)
     (h : ∀ i ∈ is, ∀ acc, body (f i) acc = (g i).map (fun y => .next (acc ++ [y])))
     (hk : ∀ ys, k (.fell ys) = .ok ys) :
-    (PyRt.forIn (is.map f) [] body >>= k) = is.mapM g := by
-  rw [forIn_yieldM f g is [] body h]
-  cases List.mapM g is with
+    (PyRt.forIn (is'.map f) [] body >>= k) = is.mapM g := by
+  subst his
+  rw [forIn_yieldM f g is' [] body h]
+  cases List.mapM g is' with
   | error e => rfl
   | ok ys => simp [Except.map, bind, Except.bind, hk]
 
